@@ -9,15 +9,17 @@ for d in seeded/$pat/; do
     id=$(basename "$d")
     [ -f "$d/patch.diff" ] || continue
     props=$(python3 -c "import json;print(' '.join(json.load(open('$d/meta.json'))['breaks']))")
+    # a change that only the thorough tier can see (it needs a minute of wall-clock time between two calls) says so in its meta.json
+    tier=$(python3 -c "import json;print(json.load(open('$d/meta.json')).get('tier','quick'))")
     if [ -z "$props" ]; then echo "$id NOT-CLAIMED (judged outside the statement; see meta.json)"; continue; fi
     [ -z "$props" ] && { echo "$id (not claimed: see meta.json)"; continue; }
     if ! git -C /repo apply "$PWD/$d/patch.diff" 2>/dev/null; then echo "$id: patch does not apply"; continue; fi
     for p in $props; do
-        out=$(VERIF_SEED=${VERIF_SEED:-0} ./check "$p" quick 2>&1); rc=$?
+        out=$(VERIF_SEED=${VERIF_SEED:-0} VERIF_SKIP_FUZZ=1 ./check "$p" "$tier" 2>&1); rc=$?
         v=$(echo "$out" | grep -c '^VIOLATION')
         sig=$(echo "$out" | grep -m1 'signature:' | sed 's/^ *signature: //')
         case $rc in
-            1) echo "$id $p DETECTED ($v violation line(s)) $sig";;
+            1) echo "$id $p DETECTED ($v violation line(s))$( [ "$tier" != quick ] && echo " [$tier tier]" ) $sig";;
             0) echo "$id $p MISSED";;
             *) echo "$id $p rc=$rc (build failure or inconclusive)"; echo "$out" | tail -5;;
         esac
